@@ -124,13 +124,17 @@ FriLast ==
        /\ fri' = [fri EXCEPT !.lastdone = @ + 1, !.failed = (Ev.eval # Ev.y)]
     /\ UNCHANGED tvars_nol
 
+\* fri_verify returns Ok exactly in this state
+FriAccepting ==
+    /\ fri.st = "layers" /\ ~fri.failed /\ ~fri.inlayer
+    /\ fri.layer = fri.nl - 1
+    /\ BNFitsInt(fri.loglast) /\ BNOf(fri.ncoefs) = BNPow2(BNToInt(fri.loglast))
+    /\ fri.lastdone = Len(fri.qs)
+
 FriResult ==
     /\ Is("fri.result") /\ Consume
     /\ fri.st \in {"layers", "decommit"}
-    /\ Ev.ok = ( /\ fri.st = "layers" /\ ~fri.failed /\ ~fri.inlayer
-                 /\ fri.layer = fri.nl - 1
-                 /\ BNFitsInt(fri.loglast) /\ BNOf(fri.ncoefs) = BNPow2(BNToInt(fri.loglast))
-                 /\ fri.lastdone = Len(fri.qs) )
+    /\ Ev.ok = FriAccepting
     /\ fri' = NoFri /\ tc' = NoTc /\ phase' = "idle"
     /\ UNCHANGED <<ready, authseq, used, root, nvf, lastok, nchecked>>
 
